@@ -12,7 +12,7 @@ prefix proved free of needle n.  Obligations at every return:
   POST-FIRST  Some(p) => hi[n] >= chunk base for all needles, mask covers all needles, first_offset used
 relative to the vector axioms (meaning of the Vector/MoveMask trait methods, has_zero_byte)."""
 from ..report import Report
-from . import e2common
+from . import e2common, lanelaws
 
 PID = 'C01'
 ROOTS = (r'^memchr::memchr[23]?$|^arch::(all|x86_64::sse2|x86_64::avx2|aarch64::neon|wasm32::simd128)::memchr::(One|Two|Three)::(find|find_raw)$')
@@ -29,7 +29,9 @@ def run(ctx, pid=PID, roots=ROOTS, kinds=KINDS, what='forward', floor_roots=9, f
                  "vector axioms: lane-wise meaning of the Vector/MoveMask trait methods and of has_zero_byte.",
                  trusted_base=['rustc nightly MIR as exported by mcsa', 'mcai E2 engine (lin/loops/interp/models)',
                                'mcai/e3.py ghost coverage', 'vector axioms (DESIGN section 4): cmpeq/or/movemask/first_offset/last_offset/has_zero_byte'],
-                 assumptions=['bit-level correctness of the Vector/MoveMask impls in vector.rs and of has_zero_byte is assumed (axioms)'])
+                 assumptions=['the lane-wise meaning of the Vector/MoveMask methods is decided per backend by the LANE-LAW obligations (E6, '
+                              'bit-provenance dataflow over src/vector.rs; trusted: the transfer functions of the vendor intrinsics in mcai/lanes.py); '
+                              'has_zero_byte (SWAR) is an axiom'])
     from .. import configs as _c
     cfgs = ctx.cfgs(quick=['x64-std@rel', 'a64@rel'], thorough=[c + '@rel' for c in _c.ALL])
     sites, roots_seen, errors = e2common.root_table(ctx, cfgs, roots, kinds)
@@ -46,5 +48,7 @@ def run(ctx, pid=PID, roots=ROOTS, kinds=KINDS, what='forward', floor_roots=9, f
         if floors is not None:
             fl = next((v for k, v in floors if cfg.startswith(k)), floor_roots)
         rep.floor(f'{what}-search-roots[{cfg}]', n, fl)
+    if pid in lanelaws.SUBSETS:
+        lanelaws.emit(rep, ctx, cfgs, pid)
     rep.extra.update({'configs': cfgs, 'roots_per_config': {c: sorted(set(v)) for c, v in roots_seen.items()}, 'sites_by_kind': per_kind})
     return rep
